@@ -32,6 +32,7 @@ do_build() {
       -DCMAKE_BUILD_TYPE=None -DCMAKE_CXX_COMPILER=/usr/bin/g++ \
       -DCMAKE_CXX_FLAGS="$FLAGS -Wno-error" \
       -Dnlohmann_json_DIR=/root/miniconda/share/cmake/nlohmann_json \
+      -DVERIF_ENGINES="${VERIF_ENGINES:-}" \
       -DCMAKE_EXPORT_COMPILE_COMMANDS=OFF || return 2
     echo "$REPO" > "$B/.repo"
   fi
